@@ -774,6 +774,26 @@ def glue_theory_extra(pid, what):
     return extra
 
 
+def glue_parse_extra(pid, lang, inner):
+    """extra(): inner(), then `anthem parse --as ... --output default` on the parser corpus against the model (cli.glue_parse)."""
+    def extra(tier, seed, outdir, broken, violations, findings_seen):
+        import cli
+        stats = inner(tier, seed, outdir, broken, violations, findings_seen) or {}
+        ok, log = cli.build_cli()
+        if not ok:
+            broken.append({"kind": "cli-build", "detail": log})
+            return stats
+        gstats, failures = cli.glue_parse([lang], seed)
+        for f in failures[:5]:
+            violations.append(dict(f, property=pid, kind="command line vs model: " + f.get("what", "")))
+        stats = dict(stats)
+        stats["evaluations"] = stats.get("evaluations", 0) + gstats.get("evaluations", 0)
+        stats["distinct_nontrivial"] = stats.get("distinct_nontrivial", 0) + gstats.get("distinct_nontrivial", 0)
+        stats["parse_command_vs_model"] = {"cli_runs": gstats.get("cli_runs"), "agreeing": gstats.get("cli_runs_agreeing"), "disagreements": len(failures)}
+        return stats
+    return extra
+
+
 def c10_extra(tier, seed, outdir, broken, violations, findings_seen):
     import cli
     ok, log = cli.build_cli()
@@ -1168,7 +1188,7 @@ PROPS = {
     },
     "C14": {
         "suites": [("print", 4000, 100000), ("asp_parse", 3000, 60000)],
-        "extra": roundtrip_extra("C14", "asp"),
+        "extra": glue_parse_extra("C14", "asp", roundtrip_extra("C14", "asp")),
         "rule": "(a) Display of generated programs vs the Lean printer model, text equality; (b) asp_parse: text.parse::<Program>() vs the Lean model of the grammar and tree builder (accepted or not, and the tree) "
                 "on printed programs, fully parenthesised renderings, re-spaced / commented variants, near-miss edits and a corpus of corner cases (corpus/asp_texts.txt); (c) round trip on the real pest parser: a generated tree "
                 "(identifier pool incl. not, nota, notify, forall, _a) is rendered fully parenthesised, parsed (tree t1 in the parser's image), printed, re-parsed (must equal t1) and printed again (must be the same text)",
@@ -1185,7 +1205,7 @@ PROPS = {
     },
     "C15": {
         "suites": [("print", 4000, 100000), ("fol_parse", 4000, 80000)],
-        "extra": roundtrip_extra("C15", "fol"),
+        "extra": glue_parse_extra("C15", "fol", roundtrip_extra("C15", "fol")),
         "rule": "(a) Display of generated formulas / specifications / user guides vs the Lean printer models, text equality; (b) fol_parse: parse::<Theory|Specification|UserGuide>() vs the Lean model of the grammar and "
                 "tree builders (accepted or not, and the tree) on printed texts, fully parenthesised renderings, re-spaced / commented variants, near-miss edits and a corpus of corner cases (corpus/fol_texts.txt: sort suffixes, "
                 "keyword boundaries, `<-` vs `< -`, chained comparisons, directions and names of annotated formulas, placeholder declarations); (c) round trip on the real pest parser as C14 for formulas (all connectives, "
